@@ -214,6 +214,8 @@ type World struct {
 	Hops    []string
 	Desc    []interface{}
 	UseHTTP bool
+	Crashes []CrashImage
+	crashN  int
 	client  *http.Client
 	Failed  string // set when the world could not be driven (not a property failure)
 }
@@ -244,6 +246,9 @@ func NewWorld(r *core.RNG, name string, now0 uint32) (*World, error) {
 	os.WriteFile(filepath.Join(dir, "watttime_data", "username"), []byte("hi"), 0644)
 	os.WriteFile(filepath.Join(dir, "watttime_data", "password"), []byte("ih"), 0644)
 	glow.SetCurrentTimeslot(now0)
+	if CaptureFromStart != nil {
+		w.CaptureCrashPoints(CaptureFromStart)
+	}
 	s, err := server.NewGCAServer(dir)
 	if err != nil {
 		os.RemoveAll(dir)
@@ -258,8 +263,37 @@ func NewWorld(r *core.RNG, name string, now0 uint32) (*World, error) {
 	return w, nil
 }
 
+// CaptureFromStart makes NewWorld install the crash-point capture before the very first start.
+var CaptureFromStart func(n int) bool
+
+// CloseServer shuts the server down but keeps the directory and the world.
+func (w *World) CloseServer() (panicked string) {
+	openGates()
+	w.StopCapture()
+	if w.S != nil {
+		func() {
+			defer func() {
+				if e := recover(); e != nil {
+					panicked = fmt.Sprint(e)
+				}
+			}()
+			w.S.Close()
+		}()
+		if panicked != "" {
+			w.S.VerifStop()
+		}
+		w.S = nil
+	}
+	return
+}
+
 // Close shuts the server down and removes the directory.
 func (w *World) Close() (panicked string) {
+	defer func() {
+		for _, c := range w.Crashes {
+			os.RemoveAll(c.Dir)
+		}
+	}()
 	openGates()
 	if w.S != nil {
 		func() {
@@ -339,8 +373,11 @@ func coqOpt(present bool, s string) string {
 }
 
 // Snapshot renders the full canonical snapshot (memory through the hook, disk from the files).
-func (w *World) Snapshot() (string, server.VerifSnap) {
-	sn := w.S.VerifSnapshot()
+func (w *World) Snapshot() (string, server.VerifSnap) { return SnapshotOf(w.S, w.Dir) }
+
+// SnapshotOf renders the snapshot of any running server and its directory.
+func SnapshotOf(S *server.GCAServer, dir string) (string, server.VerifSnap) {
+	sn := S.VerifSnapshot()
 	ids := []int{}
 	for id := range sn.Equipment {
 		ids = append(ids, int(id))
@@ -396,11 +433,11 @@ func (w *World) Snapshot() (string, server.VerifSnap) {
 		hist = append(hist, CoqStats(h))
 	}
 	// disk
-	dauths, okA := w.readAuthFile()
-	dreps, okR := w.readReportFile()
-	dstats, okS := w.readStatsFile()
-	gcaf, errG := os.ReadFile(filepath.Join(w.Dir, "gcaPubKey.dat"))
-	_, errK := os.Stat(filepath.Join(w.Dir, "server.keys"))
+	dauths, okA := readAuthFileIn(dir)
+	dreps, okR := readReportFileIn(dir)
+	dstats, okS := readStatsFileIn(dir)
+	gcaf, errG := os.ReadFile(filepath.Join(dir, "gcaPubKey.dat"))
+	_, errK := os.Stat(filepath.Join(dir, "server.keys"))
 	as := []string{}
 	for _, a := range dauths {
 		as = append(as, CoqAuth(a))
@@ -419,8 +456,12 @@ func (w *World) Snapshot() (string, server.VerifSnap) {
 	return out, sn
 }
 
-func (w *World) readAuthFile() ([]glow.EquipmentAuthorization, bool) {
-	b, err := os.ReadFile(filepath.Join(w.Dir, "equipment-authorizations.dat"))
+func (w *World) readAuthFile() ([]glow.EquipmentAuthorization, bool) { return readAuthFileIn(w.Dir) }
+func (w *World) readReportFile() ([]glow.EquipmentReport, bool)      { return readReportFileIn(w.Dir) }
+func (w *World) readStatsFile() ([]server.AllDeviceStats, bool)      { return readStatsFileIn(w.Dir) }
+
+func readAuthFileIn(dir string) ([]glow.EquipmentAuthorization, bool) {
+	b, err := os.ReadFile(filepath.Join(dir, "equipment-authorizations.dat"))
 	if err != nil {
 		return nil, false
 	}
@@ -431,8 +472,8 @@ func (w *World) readAuthFile() ([]glow.EquipmentAuthorization, bool) {
 	}
 	return out, true
 }
-func (w *World) readReportFile() ([]glow.EquipmentReport, bool) {
-	b, err := os.ReadFile(filepath.Join(w.Dir, "equipment-reports.dat"))
+func readReportFileIn(dir string) ([]glow.EquipmentReport, bool) {
+	b, err := os.ReadFile(filepath.Join(dir, "equipment-reports.dat"))
 	if err != nil {
 		return nil, false
 	}
@@ -443,8 +484,8 @@ func (w *World) readReportFile() ([]glow.EquipmentReport, bool) {
 	}
 	return out, true
 }
-func (w *World) readStatsFile() ([]server.AllDeviceStats, bool) {
-	b, err := os.ReadFile(filepath.Join(w.Dir, "allDeviceStats.dat"))
+func readStatsFileIn(dir string) ([]server.AllDeviceStats, bool) {
+	b, err := os.ReadFile(filepath.Join(dir, "allDeviceStats.dat"))
 	if err != nil {
 		return nil, false
 	}
@@ -826,4 +867,122 @@ func (w *World) CoqCase() string {
 		ts = append(ts, fmt.Sprintf("(%s, %s, %s)", H(t.Key), H(t.Msg), H(t.Sig)))
 	}
 	return fmt.Sprintf("(%s,\n %s, (%s, %s), %d,\n [%s])", core.List(ts), H(w.Temp.Pub[:]), H(w.Fresh[0]), H(w.Fresh[1]), w.Now0, strings.Join(w.Hops, ";\n  "))
+}
+
+// ---------------------------------------------------------------- crash images (C05)
+
+// CrashImage is a copy of the server directory taken at a persistence yield point.
+type CrashImage struct {
+	Dir   string
+	Now   uint32
+	OpSeq int // number of hops recorded when the copy was taken
+}
+
+// CopyDir copies a server directory (without logs).
+func CopyDir(src, dst string) error { return copyDir(src, dst) }
+
+func copyDir(src, dst string) error {
+	if err := os.MkdirAll(dst, 0755); err != nil {
+		return err
+	}
+	ents, err := os.ReadDir(src)
+	if err != nil {
+		return err
+	}
+	for _, e := range ents {
+		sp, dp := filepath.Join(src, e.Name()), filepath.Join(dst, e.Name())
+		if e.IsDir() {
+			if err := copyDir(sp, dp); err != nil {
+				return err
+			}
+			continue
+		}
+		if strings.HasSuffix(e.Name(), ".log") {
+			continue
+		}
+		b, err := os.ReadFile(sp)
+		if err != nil {
+			return err
+		}
+		if err := os.WriteFile(dp, b, 0644); err != nil {
+			return err
+		}
+	}
+	return nil
+}
+
+// CaptureCrashPoints makes every persistence yield point copy the directory (at most max copies,
+// chosen by the caller's filter).
+func (w *World) CaptureCrashPoints(keep func(n int) bool) {
+	SetHook("crash.point", func() {
+		w.crashN++
+		n := w.crashN
+		if keep != nil && !keep(n) {
+			return
+		}
+		d := fmt.Sprintf("%s-crash-%d", w.Dir, n)
+		if copyDir(w.Dir, d) == nil {
+			w.Crashes = append(w.Crashes, CrashImage{Dir: d, Now: w.Now, OpSeq: len(w.Hops)})
+		}
+	})
+}
+func (w *World) StopCapture() { SetHook("crash.point", nil) }
+
+// CoqDisk renders the files of a directory as a cdisk term.
+func CoqDisk(dir string) string {
+	dauths, okA := readAuthFileIn(dir)
+	dreps, okR := readReportFileIn(dir)
+	dstats, okS := readStatsFileIn(dir)
+	gcaf, errG := os.ReadFile(filepath.Join(dir, "gcaPubKey.dat"))
+	_, errK := os.Stat(filepath.Join(dir, "server.keys"))
+	as, rs, ss := []string{}, []string{}, []string{}
+	for _, a := range dauths {
+		as = append(as, CoqAuth(a))
+	}
+	for _, r := range dreps {
+		rs = append(rs, CoqReport(r))
+	}
+	for _, s := range dstats {
+		ss = append(ss, CoqStats(s))
+	}
+	return fmt.Sprintf("{| c_keys := %v; c_gca := %s; c_auths := %s; c_reports := %s; c_stats := %s |}", errK == nil,
+		coqOpt(errG == nil, H(gcaf)), coqOpt(okA, core.List(as)), coqOpt(okR, core.List(rs)), coqOpt(okS, core.List(ss)))
+}
+
+// RecoverImage starts a real server on a crash image (the world's own server must be closed),
+// records the HLoad hop and returns what happened.
+func (w *World) RecoverImage(ci CrashImage) (started bool, snap server.VerifSnap, startErr error, panicked string) {
+	resetGates()
+	glow.SetCurrentTimeslot(ci.Now)
+	disk := CoqDisk(ci.Dir)
+	var s *server.GCAServer
+	func() {
+		defer func() {
+			if e := recover(); e != nil {
+				panicked = fmt.Sprint(e)
+			}
+		}()
+		s, startErr = server.NewGCAServer(ci.Dir)
+	}()
+	ob := "LRefused"
+	if panicked != "" {
+		ob = "LPanicked"
+	} else if startErr == nil {
+		var str string
+		str, snap = SnapshotOf(s, ci.Dir)
+		ob = "(LStarted " + str + ")"
+		started = true
+		openGates()
+		func() {
+			defer func() {
+				if e := recover(); e != nil {
+					s.VerifStop()
+				}
+			}()
+			s.Close()
+		}()
+	}
+	w.hop(fmt.Sprintf("HLoad %s %d %s", disk, ci.Now, ob), map[string]interface{}{"op": "recover-crash-image", "now": ci.Now, "taken_after_hops": ci.OpSeq, "started": started, "error": fmt.Sprint(startErr), "panic": panicked})
+	os.RemoveAll(ci.Dir)
+	return
 }
